@@ -266,7 +266,7 @@ theorem C03_gen_accesses :
 
 /-- **Systematic table.** For every per-type checker method of core/transaction (SanityCheck, ContextCheck,
     HeightVersionCheck, CheckTransactionSize/Input/Output/Fee, CheckAttributeProgram, CheckTransactionPayload,
-    SpecialContextCheck — 190 methods) and every function of blockchain/blockvalidator.go, confirmvalidator.go and
+    SpecialContextCheck — the methods among them that contain such a site) and every function of blockchain/blockvalidator.go, confirmvalidator.go and
     txvalidator.go that indexes, slices, divides or asserts (59 functions), the list of those sites with their
     length / nil guards, in source order, is the reviewed snapshot.  A new unguarded access makes this lemma stale. -/
 theorem C03_gen_checker_tables :
